@@ -3,65 +3,6 @@ set_option linter.unusedSimpArgs false
 set_option linter.unusedVariables false
 namespace Ferrous
 
-/-! ## fuel `d.length + 1` is never exhausted -/
-
-theorem parseElemsWith_congr (p q : Bytes → Res) (hp : Shrinks p) :
-    ∀ k r, (∀ d', d'.length ≤ r.length → p d' = q d') → parseElemsWith p k r = parseElemsWith q k r := by
-  intro k
-  induction k with
-  | zero => intro r _; simp [parseElemsWith]
-  | succ k ih =>
-    intro r h
-    unfold parseElemsWith
-    rw [← h r (Nat.le_refl _)]
-    cases hpd : p r with
-    | need => rfl
-    | err => rfl
-    | ok f r1 =>
-      simp only
-      have hl := hp r f r1 hpd
-      rw [ih r1 (fun d' hd' => h d' (by omega))]
-
-theorem parseFrame_fuel_irrelevant : ∀ n m d, d.length < n → d.length < m → parseFrame n d = parseFrame m d := by
-  intro n
-  induction n with
-  | zero => intro m d h; omega
-  | succ n ih =>
-    intro m d hn hm
-    cases m with
-    | zero => omega
-    | succ m =>
-      cases d with
-      | nil => simp [parseFrame]
-      | cons t body =>
-        simp only [List.length_cons] at hn hm
-        have ihs : Shrinks (parseFrame n) := fun d f r h => by have := parseFrame_shrinks n d f r h; omega
-        have hel : ∀ k r, r.length + 2 ≤ body.length →
-            parseElemsWith (parseFrame n) k r = parseElemsWith (parseFrame m) k r := by
-          intro k r hr
-          apply parseElemsWith_congr _ _ ihs
-          intro d' hd'
-          exact ih m d' (by omega) (by omega)
-        unfold parseFrame
-        have harr : parseArray (parseFrame n) body = parseArray (parseFrame m) body := by
-          unfold parseArray
-          cases hs : splitCRLF body with
-          | none => rfl
-          | some lr =>
-            obtain ⟨l, r⟩ := lr
-            have := splitCRLF_length hs
-            simp only [hel _ r this]
-        have hagg : ∀ b, parseAgg (parseFrame n) b body = parseAgg (parseFrame m) b body := by
-          intro b
-          unfold parseAgg
-          cases hs : splitCRLF body with
-          | none => rfl
-          | some lr =>
-            obtain ⟨l, r⟩ := lr
-            have := splitCRLF_length hs
-            simp only [hel _ r this]
-        rw [harr, hagg true, hagg false]
-
 /-! ## capped container sizing never reserves more than twice the bytes received -/
 
 theorem reserveElemsWith_le (p : Bytes → Res) (rv : Bytes → Nat) (hp : Shrinks p) (B : Nat) :
